@@ -52,7 +52,8 @@ class World:
     def append(self, i, l, sized):
         o = self.objs[i - 1]
         if isinstance(o, sf.Frame):
-            val = payload(l) if sized else np.array([1, 2, 3])
+            rows = [ROWS.index(r) for r in o.index]          # a sub-container may hold some of the rows
+            val = payload(l)[rows] if sized else np.array([1, 2, 3])
             return self._grow(lambda: o.__setitem__(lab(l), val))
         if sized:
             return self._grow(lambda: o.append(lab(l)))
@@ -61,12 +62,14 @@ class World:
     def extend(self, i, ls, via):
         o = self.objs[i - 1]
         if isinstance(o, sf.Frame):
+            rows = [ROWS.index(r) for r in o.index]
+            rlabs = tuple(ROWS[r] for r in rows)
             if via == 'frame':
-                arg = sf.Frame.from_items(((lab(l), payload(l)) for l in ls), index=ROWS)
+                arg = sf.Frame.from_items(((lab(l), payload(l)[rows]) for l in ls), index=rlabs)
                 return self._grow(lambda: o.extend(arg))
             if via == 'items':
-                return self._grow(lambda: o.extend_items((lab(l), sf.Series(payload(l), index=ROWS)) for l in ls))
-            s = sf.Series(payload(ls[0]), index=ROWS, name=lab(ls[0]))
+                return self._grow(lambda: o.extend_items((lab(l), sf.Series(payload(l)[rows], index=rlabs)) for l in ls))
+            s = sf.Series(payload(ls[0])[rows], index=rlabs, name=lab(ls[0]))
             return self._grow(lambda: o.extend(s))
         if via == 'items':
             return self._grow(lambda: o.extend(lab(l) for l in ls))       # a generator
@@ -102,6 +105,28 @@ class World:
                 'transpose2': lambda: f.transpose().transpose() if len(f.columns) else f.iloc[:, :],
                 'iter_series0': lambda: next(iter(f.iter_series(axis=1))),
                 'set_index_less': lambda: f.rename('y').iloc[:, :],
+                # sub-containers handed out by the iterators and row-wise transformations (class preserving; maybe fewer rows)
+                'group_labels_first': lambda: next(iter(f.iter_group_labels(0))),
+                'group_labels_items_last': lambda: list(f.iter_group_labels_items(0))[-1][1],
+                'group_first': lambda: next(iter(f.iter_group(f.columns[0]))) if len(f.columns) else f.to_frame(),
+                'group_items_last': lambda: list(f.iter_group_items(f.columns[-1]))[-1][1] if len(f.columns) else f.to_frame(),
+                'window_first': lambda: next(iter(f.iter_window(size=min(2, len(f.index))))),
+                'window_items_last': lambda: list(f.iter_window_items(size=1))[-1][1],
+                'head1': lambda: f.head(1),
+                'tail1': lambda: f.tail(1),
+                'loc_rows': lambda: f.loc[[f.index[-1]]],
+                'drop_row': lambda: f.drop.iloc[0] if len(f.index) > 1 else f.iloc[:, :],
+                'roll_rows': lambda: f.roll(2),
+                'shift0': lambda: f.shift(0),
+                'fillna0': lambda: f.fillna(0),
+                'sort_index': lambda: f.sort_index(),
+                'astype_same': lambda: f.astype(int) if len(f.columns) else f.iloc[:, :],
+                'assign_same': lambda: f.assign[f.columns[0]](f[f.columns[0]].values) if len(f.columns) else f.iloc[:, :],
+                'from_concat_self': lambda: type(f).from_concat((f,)) if len(f.columns) else f.iloc[:, :],          # concatenating a Frame without columns raises (zero-sized family, C14 findings)
+                'isna_neg': lambda: f.iloc[:, :] if not len(f.columns) else f.loc[f.notna().all(axis=1)],
+                'mask_row': lambda: f.loc[sf.Series(np.ones(len(f.index), dtype=bool), index=f.index)],
+                'dropna': lambda: f.dropna() if len(f.columns) else f.iloc[:, :],
+                'iter_frame_group_array': lambda: f.iloc[np.ones(len(f.index), dtype=bool)],
             }[route]()
         else:
             ix = o
@@ -169,10 +194,12 @@ class World:
                 broken.append('probe_raises:%s:%s' % (name, type(e).__name__))
         if kind == 'frame':
             try:
-                if o.shape != (2, n) or len(o._blocks._index) != n:
+                rows = [ROWS.index(r) for r in o.index]          # a sub-container may hold some of the rows
+                if o.shape != (len(rows), n) or len(o._blocks._index) != n or not rows:
                     broken.append('labels_and_data_out_of_step')
                 for pos, l in enumerate(labels):
-                    if o[NAMES[l]].values.tolist() != payload(l).tolist() or o.iloc[:, pos].values.tolist() != payload(l).tolist():
+                    want = [payload(l).tolist()[r] for r in rows]
+                    if o[NAMES[l]].values.tolist() != want or o.iloc[:, pos].values.tolist() != want:
                         broken.append('column_data:%s' % NAMES[l])
                 if n:
                     try:
